@@ -10,7 +10,8 @@ import Nstd.Avl.LemmasCost
   keys/values of the tree; `iter_run` shows it is what iteration `begin()…end()` yields.
   All theorems quantify over every history, i.e. over every reachable tree shape; keys are `Int`.
 
-  Not covered by theorems (only modelled): the free-list order of item ids.  Out of scope of C01: self-assignment, copies of MultiMap
+  The exact item ids / free-list order are modelled and compared with the real code by the
+  thorough correspondence run (white-box dump); the theorems only need them distinct.  Out of scope of C01: self-assignment, copies of MultiMap
   (defects D2/D5, property C04), allocation failure.
 -/
 namespace Nstd.Avl
@@ -404,8 +405,8 @@ theorem multi_insert_stable (ops : List Op) (k v : Int) :
     order" (DESIGN.md C01/X) is not stated: the model is monomorphic.
        theorem find_cost_log_any_order {K} [LinearOrder K] … : (analogue of find_cost_log)
   * The free-list discipline (LIFO reuse of item addresses, blocks of 4) is modelled (`St.alloc`,
-    invariant: ids distinct and disjoint from the free list) but addresses are not observable
-    through the public API and are not compared by the correspondence run.
+    invariant: ids distinct and disjoint from the free list); which id an insert reuses is not
+    the subject of a theorem (compared with the real code in the thorough tier).
 -/
 
 /-! ### non-vacuity: concrete reachable states -/
